@@ -30,7 +30,7 @@ def history_prefix(cases, idx):
     return [c for c in cases[:idx + 1] if c.startswith('h.') and len(c.split('\t')) > 1 and c.split('\t')[1].startswith(hid)]
 
 
-def compare(res, prop, suite, cases, impl, model, pinned=False):
+def compare(res, prop, suite, cases, impl, model, pinned=False, facts_changed=False):
     cfg = runner.PROPS[prop]
     cmps = [c for c in cfg['cmps'] if c.suite == suite]
     for idx, (c, i, m) in enumerate(zip(cases, impl, model)):
@@ -50,6 +50,11 @@ def compare(res, prop, suite, cases, impl, model, pinned=False):
             continue
         res.evaluations += 1
         res.count('op:' + op)
+        if 'ORACLE-MISS' in m and facts_changed:
+            # the regenerated facts moved a constant the harness's (fixed, independent) oracle keys depend on: the model built from them asks
+            # for an oracle answer the harness did not supply.  The case cannot be judged against that model; the pinned-facts pass judges it.
+            res.count('oracle-miss under changed facts (judged by the pinned-facts pass only)')
+            continue
         if 'ORACLE-MISS' in m or 'BAD-' in m:
             raise RuntimeError('harness/driver protocol problem on case: %s -> %s' % (c[:300], m))
         if runner.nontrivial(c, i):
@@ -159,10 +164,10 @@ def run_property(prop, tier, seed, replay_path, t0):
                     if ops == ('pair',):
                         kind = {'pairs10': 'C10', 'pairs09': 'C09', 'twins': 'C15', 'roundtrip': 'C06'}.get(cm_suite)
                         idx = [j for j, x in enumerate(c) if x.split('\t')[:2] == ['pair', kind]]
-                        compare(res, prop, cm_suite, [c[j] for j in idx], [i[j] for j in idx], [m[j] for j in idx])
+                        compare(res, prop, cm_suite, [c[j] for j in idx], [i[j] for j in idx], [m[j] for j in idx], facts_changed=bool(stage.facts_changed))
                         continue
                     idx = [j for j, x in enumerate(c) if x.split('\t', 1)[0] in ops]
-                    compare(res, prop, cm_suite, [c[j] for j in idx], [i[j] for j in idx], [m[j] for j in idx])
+                    compare(res, prop, cm_suite, [c[j] for j in idx], [i[j] for j in idx], [m[j] for j in idx], facts_changed=bool(stage.facts_changed))
             if not replay_path:
                 # thorough: every suite twice, with two independent generator seeds
                 reps = [0] if tier == 'quick' else [0, 1]
@@ -180,11 +185,19 @@ def run_property(prop, tier, seed, replay_path, t0):
                         problems.append(dict(what='the harness process crashed in suite %s (seed %d): a panic escaped inside the implementation' % (suite, sseed),
                                              detail=hc.out[-3000:]))
                         continue
-                    compare(res, prop, suite, c, i, m)
-                    if stage.facts_changed and stage.pinned:
-                        mp = runner.run_pinned(stage, os.path.join(workdir, suite + '.cases'), os.path.join(workdir, suite + '.pinned'))
-                        if len(mp) == len(c):
-                            compare(res, prop, suite, c, i, mp, pinned=True)
+                    except RuntimeError as ex:
+                        # the harness or the driver could not process the suite against this tree: the correspondence no longer checks
+                        problems.append(dict(what='correspondence suite %s (seed %d) could not be evaluated' % (suite, sseed), detail=str(ex)[-3000:]))
+                        continue
+                    try:
+                        compare(res, prop, suite, c, i, m, facts_changed=bool(stage.facts_changed))
+                        if stage.facts_changed and stage.pinned:
+                            mp = runner.run_pinned(stage, os.path.join(workdir, suite + '.cases'), os.path.join(workdir, suite + '.pinned'))
+                            if len(mp) == len(c):
+                                compare(res, prop, suite, c, i, mp, pinned=True)
+                    except RuntimeError as ex:
+                        problems.append(dict(what='correspondence suite %s (seed %d) could not be evaluated' % (suite, sseed), detail=str(ex)[-3000:]))
+                        continue
                     if not rep:
                         res.suite_rules.append('%s: %s' % (suite, runner.RULES[suite]))
                 # property-specific machinery
